@@ -25,6 +25,7 @@ import SwcVerif.Model.AlgoRunPopFront
 import SwcVerif.Model.AlgoRunNormalizer
 import SwcVerif.Model.AlgoRunBranches
 import SwcVerif.Model.AlgoRunRedirect
+import SwcVerif.Model.AlgoRunAffine
 import SwcVerif.Model.AlgoRunViews
 import SwcVerif.Model.AlgoRunCat
 import SwcVerif.Model.AlgoRunAssemble
@@ -83,6 +84,7 @@ def dispatch (op : String) (args : List String) : String :=
   | "gtopop" => AlgoRun.handleToPop args
   | "gfromswc" => AlgoRun.handleFromSwc args
   | "gredirect" => AlgoRun.handleRedirect args
+  | "gaffine" | "gpipe" => AlgoRun.handleAffine op args
   | "gviews" => AlgoRun.handleViews args
   | "gslice" => AlgoRun.handleSlice args
   | "gcat" => AlgoRun.handleCat args
